@@ -574,6 +574,19 @@ def rule_m4(repo, res):
     dal = dict_aliases(repo)
     getters = {a for a, m in dal.items() if m == "__getitem__"} | {"dict.__getitem__"}
     ci = repo.cls(CONTAINER)
+    from .inline import inlined
+
+    class _M(dict):
+        """methods of the container with thin helpers (module-level or of the class) read in place"""
+        def __missing__(self, k):
+            if k not in ci.methods:
+                raise AnalysisError(f"anchor vanished: method {CONTAINER}.{k}")
+            self[k] = inlined(repo, CONTAINER, ci.methods[k], module=ci.module.name)
+            return self[k]
+
+        def get(self, k, default=None):
+            return self[k] if k in ci.methods else default
+    M = _M()
     F = lambda m, what, msg: res.add(Finding("M4", f"{CONTAINER}.{m}", what, msg,
                                              where=f"pvl/collections.py:{ci.methods[m].lineno}"))
 
@@ -581,7 +594,7 @@ def rule_m4(repo, res):
         return isinstance(v, ast.Attribute) and v.attr == items
 
     # lookup by key -> first value
-    fn = ci.methods["__getitem__"]
+    fn = M["__getitem__"]
     rets = [r for r in ast.walk(fn) if isinstance(r, ast.Return) and isinstance(r.value, ast.Subscript)
             and isinstance(r.value.value, ast.Call) and norm(r.value.value.func) in getters]
     ok = bool(rets) and all(isinstance(r.value.slice, ast.Constant) and r.value.slice.value == 0 for r in rets)
@@ -594,14 +607,14 @@ def rule_m4(repo, res):
     if not ok:
         F("__getitem__", "index access", "integer/slice indexing no longer reads the item list")
     # getall -> all values in order (a copy)
-    fn = ci.methods["getall"]
+    fn = M["getall"]
     ok = any(isinstance(r, ast.Return) and isinstance(r.value, ast.Call) and norm(r.value.func) == "list" and r.value.args and
              isinstance(r.value.args[0], ast.Call) and norm(r.value.args[0].func) in getters for r in ast.walk(fn))
     res.oblige("M4", f"{CONTAINER}.getall returns a copy of the key's value list", ok=ok)
     if not ok:
         F("getall", "list(<value list>)", "getall no longer returns a copy of the whole value list of the key")
     # __setitem__
-    fn = ci.methods["__setitem__"]
+    fn = M["__setitem__"]
     first = fn.body[0] if fn.body else None
     while isinstance(first, ast.Expr) and isinstance(first.value, ast.Constant):
         first = fn.body[fn.body.index(first) + 1]
@@ -631,7 +644,7 @@ def rule_m4(repo, res):
     if not ok:
         F("__setitem__", "drop later", "assignment no longer removes the later pairs that have the same key")
     # __delitem__
-    fn = ci.methods["__delitem__"]
+    fn = M["__delitem__"]
     filt = [n for n in ast.walk(fn) if isinstance(n, ast.ListComp) and any(
         isinstance(c, ast.Compare) and isinstance(c.ops[0], ast.NotEq) and norm(c.comparators[0]) == "key" and "[0]" in norm(c.left)
         for g in n.generators for c in g.ifs)]
@@ -639,7 +652,7 @@ def rule_m4(repo, res):
     if not filt:
         F("__delitem__", "filter item[0] != key", "deletion no longer keeps exactly the pairs with a different key")
     # pop() -> last pair
-    fn = ci.methods["pop"]
+    fn = M["pop"]
     pops = [n for n in ast.walk(fn) if isinstance(n, ast.Call) and isinstance(n.func, ast.Attribute) and n.func.attr == "pop"
             and is_items(n.func.value)]
     ok = bool(pops) and all(not n.args and not n.keywords for n in pops)
@@ -647,7 +660,7 @@ def rule_m4(repo, res):
     if not ok:
         F("pop", "self.__items.pop()", "pop() without a key no longer removes the last pair of the list")
     # insert
-    fn = ci.methods["insert"]
+    fn = M["insert"]
     ins = [n for n in ast.walk(fn) if isinstance(n, ast.Call) and isinstance(n.func, ast.Attribute) and n.func.attr == "insert"
            and is_items(n.func.value)]
     ok = bool(ins) and all(len(n.args) == 2 and norm(n.args[0]) == "index" and norm(n.args[1]) == "(key, value)" for n in ins) and \
@@ -657,7 +670,7 @@ def rule_m4(repo, res):
     if not ok:
         F("insert", "consecutive indices", "insert no longer places the given pairs at consecutive positions starting at index")
     for nm, off in (("insert_after", "index + 1"), ("insert_before", "index")):
-        fn = ci.methods.get(nm)
+        fn = M.get(nm)
         if fn is None:
             continue
         ki = any(isinstance(n, ast.Assign) and norm(n.targets[0]) == "index" and norm(n.value) == "self.key_index(key, instance)"
@@ -667,14 +680,14 @@ def rule_m4(repo, res):
         res.oblige("M4", f"{CONTAINER}.{nm} inserts at key_index(key, instance){' + 1' if off != 'index' else ''}", ok=ok)
         if not ok:
             F(nm, off, f"{nm} no longer inserts at `{off}` with index = key_index(key, instance)")
-    fn = ci.methods["key_index"]
+    fn = M["key_index"]
     ok = any(isinstance(r, ast.Return) and isinstance(r.value, ast.Subscript) and norm(r.value.slice) == "instance" for r in ast.walk(fn)) and \
         any(isinstance(c, ast.Compare) and isinstance(c.ops[0], ast.Eq) and "key" in {norm(c.left), norm(c.comparators[0])} for c in ast.walk(fn))
     res.oblige("M4", f"{CONTAINER}.key_index returns the instance-th position whose key equals the key", ok=ok)
     if not ok:
         F("key_index", "idxs[instance]", "key_index no longer returns the instance-th position of the key")
     # equality compares pairs in order, both key and value, same class, same length
-    fn = ci.methods["__eq__"]
+    fn = M["__eq__"]
     src = norm(fn, 4000)
     ok = "isinstance(other, type(self))" in src and "len(self) != len(other)" in src and \
         sum(1 for c in ast.walk(fn) if isinstance(c, ast.Compare) and isinstance(c.ops[0], ast.NotEq)) >= 3
